@@ -493,7 +493,7 @@ func (g *gen) malformedBody() (body, string) {
 func (g *gen) request() *rq {
 	x := g.pick(100)
 	switch {
-	case x < 55:
+	case x < 58:
 		ct := []string{"application/json", "application/json", "application/json; charset=utf-8", "APPLICATION/JSON"}[g.pick(4)]
 		b, tags, lk, rg := g.objectBody(false)
 		h := g.reqHeaders(ct)
